@@ -5,6 +5,8 @@ combination, every fault plan).  Cluster side: see Helm/Model/Cluster.lean (requ
 -/
 import Helm.Model.Ledger
 import Helm.Lemmas.Cluster
+import Helm.Model.DryRun
+import Helm.Gen.Tables
 
 namespace Helm.Props.C06
 open Helm.Ledger
@@ -79,5 +81,63 @@ theorem upgrade_dry_run_cluster (rel ns : String) (to force : Bool) (current tar
   · exact ⟨rfl, hr⟩
   · simp only [if_true]
     exact ⟨trivial, hr⟩
+
+/-! ### every dry-run spelling, CRDs and client-only -/
+
+open Helm.Cluster Helm.DryRun in
+/-- Whatever the spelling (DryRun, or DryRunOption client / server / true), whatever the other
+flags and whatever the chart has in crds/: an install in a dry-run mode leaves the cluster as
+it is and sends only reads. -/
+theorem install_any_dry_run_spelling (rel ns : String) (m : Mode) (to force : Bool) (crds manifest : List Obj)
+    (s : Store) (hd : m.dryRun = true ∨ m.option = "client" ∨ m.option = "server" ∨ m.option = "true") :
+    (installOp rel ns m to force crds manifest s).store = s ∧
+    ∀ e ∈ (installOp rel ns m to force crds manifest s).log, e.isWrite = false := by
+  have hdr : isDryRun m = true := by
+    unfold isDryRun
+    rcases hd with h | h | h | h <;> simp [h]
+  have hp : crdPhase m crds s = (s, []) := by
+    unfold crdPhase
+    split
+    · rfl
+    · simp [hdr]
+  unfold installOp
+  rw [hp]
+  split
+  · exact ⟨rfl, by simp⟩
+  · rw [hdr]
+    have := install_dry_run_cluster rel ns to force manifest s
+    exact ⟨this.1, by simpa using this.2⟩
+
+open Helm.Cluster Helm.DryRun in
+theorem upgrade_any_dry_run_spelling (rel ns : String) (m : Mode) (to force : Bool) (current target : List Obj)
+    (s : Store) (hd : m.dryRun = true ∨ m.option = "client" ∨ m.option = "server" ∨ m.option = "true") :
+    (upgradeOp rel ns m to force current target s).store = s ∧
+    ∀ e ∈ (upgradeOp rel ns m to force current target s).log, e.isWrite = false := by
+  have hdr : isDryRun m = true := by
+    unfold isDryRun
+    rcases hd with h | h | h | h <;> simp [h]
+  unfold upgradeOp
+  rw [hdr]
+  exact upgrade_dry_run_cluster rel ns to force current target s
+
+open Helm.Cluster Helm.DryRun in
+/-- Client-only rendering sends no request at all. -/
+theorem client_only_sends_nothing (rel ns : String) (m : Mode) (hc : m.clientOnly = true) (to force : Bool)
+    (crds manifest : List Obj) (s : Store) :
+    (installOp rel ns m to force crds manifest s).log = [] ∧ (installOp rel ns m to force crds manifest s).store = s := by
+  unfold installOp crdPhase
+  simp [hc]
+
+/-- The tie to the source: the spellings `isDryRun` accepts, in Install and in Upgrade, and the
+guard of the CRD block (regenerated from pkg/action/install.go, upgrade.go at every run). -/
+theorem dry_run_spellings_are_the_models :
+    Helm.Gen.installDryRunSpellings = ["client", "server", "true"] ∧
+    Helm.Gen.upgradeDryRunSpellings = ["client", "server", "true"] ∧
+    Helm.Gen.crdBailCondition = "i.isDryRun()" := by decide
+
+/-- non-vacuity: dry-run=server with a CRD in the chart and a populated cluster -/
+example :
+    (Helm.DryRun.installOp "r" "n" { option := "server" } false false [{ key := "crd/x" }] [{ key := "a" }] [{ key := "z" }]).log
+      = [.get "a"] := by decide
 
 end Helm.Props.C06
